@@ -10,6 +10,10 @@
 #ifndef B
 #define B 3
 #endif
+/* bucket_index_for, taken by contract: the harness supplies the (contract-conforming: none, or an index below 256) answer as a CONSTANT on
+   each path -- the generated contract stub would make it a symbolic value equal to that constant, and every access to the 256-bucket array
+   would go through a symbolic index (solver out of memory) */
+opt_u64 KademliaTable__bucket_index_for(KademliaTable *self, arr_u8_32 *peer) { opt_u64 r; r.has = g_index_has; r.v = g_index; return r; }
 static KademliaTable tab; static PeerContact st[B + 2], before[B + 1];
 static _Bool same_id(const PeerContact *a, const PeerContact *b) { for (int k = 0; k < 32; ++k) if (a->id._[k] != b->id._[k]) return 0; return 1; }
 static void body(uint64_t bi, _Bool has)
@@ -44,8 +48,7 @@ static void body(uint64_t bi, _Bool has)
 }
 void h_upsert(void)
 {
-  { KademliaTable a; tab = a; }
-  for (int i = 0; i < 256; ++i) { tab.buckets_._[i].p = 0; tab.buckets_._[i].n = 0; tab.buckets_._[i].cap = 0; }
+  /* tab has static storage: all 256 buckets start empty (value-initialised deques); the local id is not read (bucket_index_for is a stub) */
   for (int i = 0; i < B + 2; ++i) { PeerContact c; st[i] = c; for (int k = 1; k < 32; ++k) st[i].id._[k] = 0; st[i].address.p = 0; st[i].address.n = 0; st[i].address.cap = 0; __CPROVER_assume(st[i].expires_at >= 0 && st[i].expires_at <= 4000000000000000000l); }
   uint8_t pick;
   /* bucket_index_for's answer is a constant on each path (symbolic execution stays small; the function only uses it to select the bucket) */
